@@ -390,6 +390,17 @@ impl<I: Ip> TorrentMapShards<I> {
                     .load()
                     .allows(access_list_mode, &info_hash.0)
                 {
+                    // Peers of a forbidden torrent were counted in the
+                    // previous step, but are no longer stored once it is
+                    // removed
+                    peer_map.read().for_each_peer(|peer| {
+                        total_num_peers = total_num_peers.saturating_sub(1);
+
+                        if config.statistics.peer_clients {
+                            statistics_messages.push(StatisticsMessage::PeerRemoved(peer.peer_id));
+                        }
+                    });
+
                     return false;
                 }
 
@@ -580,6 +591,13 @@ impl<I: Ip> PeerMap<I> {
         match self {
             Self::Small(peer_map) => peer_map.0.is_empty(),
             Self::Large(peer_map) => peer_map.peers.is_empty(),
+        }
+    }
+
+    fn for_each_peer(&self, mut f: impl FnMut(&Peer)) {
+        match self {
+            Self::Small(peer_map) => peer_map.0.iter().for_each(|(_, peer)| f(peer)),
+            Self::Large(peer_map) => peer_map.peers.values().for_each(|peer| f(peer)),
         }
     }
 }
